@@ -170,6 +170,22 @@ def explore(ctx, max_len):
                 bad["routing"].append(dict(case, languages=got[1], required=[lang or "en-US"]))
             elif got[1] != want[1]:
                 bad["final"].append(dict(case, returned_times=got[1], required=want[1]))
+    # many over-long rows at once: every one of them is named, however long the report gets
+    many = [(f"long{k}", 2 * S, [("L%02d " % k) + "x" * 36]) for k in range(20)]
+    n += 1
+    out, log, caps, content, me = W.run(many)
+    rows = [r for (_, _, rs) in many for r in rs]
+    if out[0] != "raise" or out[1] != "CaptionLineLengthError":
+        bad["length"].append({"captions": "20 captions, each with a row of 40 characters", "required": "raises CaptionLineLengthError",
+                              "got": "returns" if out[0] == "ok" else f"raises {out[1]}"})
+    else:
+        msg = out[3][0] if out[3] and isinstance(out[3][0], str) else None
+        if msg is None:
+            raise AnalysisError("SCCReader.read: the message of CaptionLineLengthError does not fold")
+        missing = [r for r in rows if r not in msg]
+        if missing:
+            bad["message"].append({"captions": "20 captions, each with a row of 40 characters",
+                                   "rows_not_named": len(missing), "message_length": len(msg)})
     return W, bad, n
 
 
